@@ -198,18 +198,18 @@ def r4(ctx):
 @rule("C05", "R5", "NUM", "log-determinants used for scoring stay finite (no determinant is formed)", floor=3)
 def r5(ctx):
     from . import c03
-    c03.r5(ctx)
+    ctx.sub(c03.r5)
 
 
 @rule("C05", "R6", "FLOW", "sums, means and medians in the result aggregate exactly the per-point log-densities")
 def r6(ctx):
     from . import c06
-    c06.r1(ctx)
-    c06.r2(ctx)
+    ctx.sub(c06.r1)
+    ctx.sub(c06.r2)
 
 
 @rule("C05", "R7", "AGREE", "the reported MRF of cluster k is the very matrix points are scored against (train_inverse, unmodified)")
 def r7(ctx):
     from . import c04, c03
-    c04.r5(ctx)     # markov_random_fields[k] = state.clusters[k].train_inverse
-    c03.r4(ctx)     # train_inverse is the (filtered) optimiser result; nothing filters it again later
+    ctx.sub(c04.r5)     # markov_random_fields[k] = state.clusters[k].train_inverse
+    ctx.sub(c03.r4)     # train_inverse is the (filtered) optimiser result; nothing filters it again later
